@@ -1,6 +1,11 @@
 import Model.Cache
 import Model.Numscript.Spec
 import Lemmas.Syntax
+import Model.Numscript.VM
+import Lemmas.NumRun
+import Lemmas.NumCheck
+import Lemmas.NumBytecode
+import Generated.Opcodes
 /-! C08 — compiled programs do what the source says.
 `Spec.run` is the definition of "what the source text says".  What is proved here (growing):
 * rejection: a program the static rules reject is refused, never run (`rejected_not_run`);
@@ -18,6 +23,159 @@ theorem rejected_not_run (P : Script) (req : Request) (store : Store) (h : check
 
 
 
+
+/-! ### model A2 — the bytecode level -/
+
+/-- the opcode numbering of the model is the one of `vm/program/instructions.go` (regenerated on every run) -/
+theorem opcode_table_matches : Generated.opcodes = Num.opcodeTable := by decide
+
+/-- the `machine.Type` numbering of the model is the one of `machine/value.go` (regenerated on every run) -/
+theorem type_table_matches : Generated.types = Num.typeTable := by decide
+
+/-- every instruction's opcode byte and Go name are an entry of the (tied) table -/
+theorem opcode_in_table (i : Instr) : (i.name, i.opcode) ∈ Num.opcodeTable := by
+  cases i <;> simp [Num.opcodeTable, Num.allInstrs, Instr.name, Instr.opcode]
+
+/-- the byte string `encode` produces decodes back, opcode by opcode (two operand bytes after `OP_APUSH`), to the
+instruction list the VM model executes — for addresses that fit a `uint16`, which is all the compiler allocates -/
+theorem decode_encode_roundtrip (is : List Instr) (h : ∀ i ∈ is, i.addrOK) :
+    decodeNat (encodeNat is).length (encodeNat is) = some is :=
+  decode_encode is h _ (Nat.le_refl _)
+
+/-- compiling is a function of the program alone: the same program compiles to the same bytecode, resources,
+needed balances and sources (or to the same refusal) — no hidden state, whatever was compiled before -/
+theorem compile_deterministic (P : Script) (r₁ r₂ : Except CompileErr Program)
+    (h₁ : compile P = r₁) (h₂ : compile P = r₂) : r₁ = r₂ := h₁ ▸ h₂ ▸ rfl
+
+/-! #### the compiler refuses exactly what the language rejects
+
+`Num.check` is the statement of the static rules (typing, portion sums, `remaining` uniqueness, unbounded-not-last,
+world-with-overdraft, already-emptied account, send-all on an allotment / unbounded source).  The compiler model —
+which is byte-for-byte the real compiler on every generated program — has two more ways to stop, both size limits
+(more than 65536 resources, more than 32768 variables), kept as separate outcomes.  `Lemmas/NumCheck.lean` proves,
+visitor by visitor, `CkSpec (visitX …) (checkX …)`: success needs the check to pass, a static refusal needs it to
+fail, and the nil `*Address` that `VisitExpr` returns for number arithmetic is never dereferenced. -/
+
+/-- a program that compiles satisfies the static rules (so `Spec.run` does not stop at its `check`) -/
+theorem compile_accepts_checked (P : Script) (prog : Program) (h : compile P = .ok prog) : check P = true := by
+  have := compile_ck P
+  rw [h] at this
+  exact this.1
+
+/-- a refusal for a static reason is a refusal of the language -/
+theorem compile_static_rejects (P : Script) (h : compile P = .error .static) : check P = false := by
+  have := compile_ck P
+  rw [h] at this
+  exact this
+
+/-- whatever the language rejects is refused (never run) -/
+theorem compile_rejects_unchecked (P : Script) (h : check P = false) : ∃ e, compile P = .error e := by
+  cases hc : compile P with
+  | error e => exact ⟨e, rfl⟩
+  | ok prog => rw [compile_accepts_checked P prog hc] at h; cases h
+
+/-- **compile rejects exactly when check does** — for every program that does not hit one of the two size limits
+of the compiler (65536 resources, 32768 variables), which are outcomes of their own -/
+theorem compile_rejects (P : Script) (hr : compile P ≠ .error .tooManyResources) (hv : compile P ≠ .error .tooManyVars) :
+    (∃ e, compile P = .error e) ↔ check P = false := by
+  constructor
+  · rintro ⟨e, he⟩
+    have := compile_ck P
+    rw [he] at this
+    cases e with
+    | static => exact this
+    | nilAddr => exact this.elim
+    | tooManyResources => exact absurd he hr
+    | tooManyVars => exact absurd he hv
+  · exact compile_rejects_unchecked P
+
+/-- non-vacuity of the side conditions: a small program hits no limit -/
+example : compile ⟨[], [.fail]⟩ ≠ .error .tooManyResources ∧ compile ⟨[], [.fail]⟩ ≠ .error .tooManyVars := by
+  simp [compile, visitVars, visitVarList, visitStmts, visitStmt]
+
+/-- and the rejection is real: an ill-typed program is refused by both -/
+example : check ⟨[], [.print (.add (.num 1) (.str "x"))]⟩ = false := by decide
+
+/-! #### compiler correctness
+
+The FULL statement (not yet proved in this generality; tied by the differentials of `checks/c08.py`):
+
+```
+theorem compile_correct (P : Script) (prog : Program) (hc : compile P = .ok prog) (req : Request) (store : Store) :
+    (VM.run prog req store).map VM.Result.obs = Outcome.ofExcept ((Spec.run P req store).map Result.obs)
+-- obs = (postings, txMeta, acctMeta): for every program the language accepts, every variable map and every store,
+-- running the compiled bytecode on the VM gives exactly what the source says (same postings, same metadata,
+-- or the same class of error) and never panics.
+```
+
+What IS proved, for the FRAGMENT `Script.frag`:
+statements `send [A n | A *] (source = S, destination = @x | $x)` with `S` built from accounts (with or without
+`allowing overdraft up to …` / `allowing unbounded overdraft`, `@world` included), `max … from S` and in-order
+lists `{ S … }`; `save … from`, `set_tx_meta`, `set_account_meta`, `print`, `fail`; no portion literal inside the
+expressions (a de-duplicated portion constant is equal only up to `ratEq`), lists shorter than 2^64.
+
+`compile_correct_partial`: after the VM's resolution stage (`SetVarsFromJSON`, `ResolveResources`,
+`ResolveBalances`) succeeded, `VM.run` of the compiled program is `Spec`'s statement semantics `evalStmts`
+(the very function `Spec.run` uses) under the environment read back from the resolved resource table, followed
+by `Spec.run`'s metadata merge.  Not covered by the theorem: source and destination allotments, ordered
+destinations with `max`/`remaining`/`kept`; and the equivalence of the two RESOLUTION stages (`Spec.prepare` /
+`initBal` vs `SetVarsFromJSON`/`ResolveResources`/`ResolveBalances`) — both rest on the differentials. -/
+
+/-- **compiled code does what the source says (fragment)** — frame lemmas `expr_ok`, `source_ok`,
+`takeFromSource_ok`, `destAcct_ok`, `stmt_ok` of `Lemmas/Num{Frame,Stmt}.lean`: running `code(src)` from stack `S`
+and balances `B` ends with stack `funding :: S` and balances `B'`, nothing below `S` touched, and equals
+`Spec.evalSource`; likewise for destinations and whole statements. -/
+theorem compile_correct_partial (P : Script) (prog : Program) (hc : compile P = .ok prog) (hfr : P.frag)
+    (req : Request) (store : Store) (vars : List (String × BVal)) (R : VM.Resolved) (vals : List BVal) (B : VM.Balances)
+    (hv : VM.setVarsFromJSON prog req.vars = .ok vars) (hr : VM.resolveResources prog vars store = .ok R)
+    (hb : VM.resolveBalances prog R store = .ok (vals, B)) :
+    match evalStmts (envOf prog.resources vals) P.stmts { st := { bal := B.bal, postings := [] } } with
+    | .error er => VM.run prog req store = .error er
+    | .ok F =>
+      if req.metadata.any (fun kv => (F.txMeta.map (fun t => (t.1, valToString t.2))).any (fun t => t.1 = kv.1))
+      then VM.run prog req store = .error .metaOverride
+      else ∃ r, VM.run prog req store = .ok r ∧ r.postings = F.st.postings ∧
+        r.txMeta = F.txMeta.map (fun t => (t.1, valToString t.2)) ++ req.metadata ∧
+        r.acctMeta = F.acctMeta.map (fun m => (m.1, m.2.1, valToString m.2.2)) ∧
+        r.prints = F.prints.map BVal.ofVal := by
+  obtain ⟨cx, hE, hok⟩ := run_setup hc hv hr hb
+  have hrel : Rel B.accts B.keys ({ balances := B } : VM.Machine) { st := { bal := B.bal, postings := [] } } :=
+    ⟨rfl, rfl, rfl, rfl, rfl, rfl, rfl, hok⟩
+  have hex := execute_correct hc hfr cx hE _ _ hrel
+  simp only [VM.run, hv, hr, hb]
+  cases hev : evalStmts (envOf prog.resources vals) P.stmts { st := { bal := B.bal, postings := [] } } with
+  | error er =>
+    rw [hev] at hex
+    simp only [hex]
+  | ok F =>
+    rw [hev] at hex
+    obtain ⟨m', hx, hr'⟩ := hex
+    simp only [hx, hr'.txMeta, hr'.acctMeta, renderTxMeta_map, renderAcctMeta_map]
+    split
+    · rfl
+    · exact ⟨_, rfl, hr'.postings, rfl, rfl, hr'.prints⟩
+
+/-! non-vacuity: a program of the fragment compiles (so the hypotheses of `compile_correct_partial` are
+satisfiable); richer members of the fragment (ordered capped sources with overdraft and a `@world` fallback, saves,
+metadata) compile too — `decide` cannot run the compiler on strings in reasonable time, the bytecode-equality
+differential shows them -/
+example : ∃ prog, compile ⟨[], [.print (.add (.num 1) (.num 2)), .fail]⟩ = .ok prog ∧
+    prog.instrs = [.apush 0, .apush 1, .iadd, .print, .fail] := by
+  simp [compile, visitVars, visitVarList, visitStmts, visitStmt, visitExpr, litOut, allocRes, findConstant, appendResource,
+    isConstEq, valueEquals]
+
+example : Script.frag ⟨[], [.print (.add (.num 1) (.num 2)), .fail]⟩ :=
+  ⟨by simp, by intro s hs; simp at hs; rcases hs with rfl | rfl <;> rfl⟩
+
+example : Script.frag
+    ⟨[⟨.account, "dst", .none⟩],
+     [.send (.mon (.mon (.asset "USD") 100))
+        (.src (.inorder (.cons (.maxed (.mon (.asset "USD") 10) (.acct (.acct "a") (.upTo (.mon (.asset "USD") 5))))
+          (.cons (.acct (.acct "world") .none) .nil))))
+        (.acct (.var "dst")),
+      .saveMon (.mon (.asset "USD") 1) (.acct "a"),
+      .setTxMeta "k" (.add (.num 1) (.num 2))]⟩ :=
+  ⟨by simp, by intro s hs; simp at hs; rcases hs with rfl | rfl | rfl <;> rfl⟩
 
 /-- invariant of the cache: every entry is the compilation of some text with that digest -/
 def CacheInv {Text Key Prog : Type} (H : Text → Key) (compile : Text → Option Prog) (c : Cache.Store Key Prog) : Prop :=
